@@ -44,6 +44,7 @@ func runC19(p *Prog, r *Report) {
 	c19R3(p, r)
 	c19R4(p, r)
 	c19R5(p, r)
+	c19More(p, r)
 }
 
 // ---- R1 -----------------------------------------------------------------------------------
@@ -777,4 +778,149 @@ func c19R5(p *Prog, r *Report) {
 		}
 	}
 	_ = types.Typ
+}
+
+// ---- additions after the second round of seeded changes ---------------------------------------
+
+// c19More: (R3) the first channel recorded for a channel group is the number given to the first
+// channel of that group: the value stored into GroupIndex.Firstchan is the very value that
+// enters the per-row numbering loop; (R1) every row/column code put into the table is the
+// packer's result for (row of the enclosing row loop, column, that loop's own bound, column
+// count) — also accepted in the hoisted form rcCode(0, col, rows, cols) | RowColCode(row).
+func c19More(p *Prog, r *Report) {
+	for _, fn := range p.LibFuncs() {
+		if fn.Name() != "PrepareChannels" {
+			continue
+		}
+		// --- Firstchan
+		Instrs(fn, func(in ssa.Instruction) {
+			st, ok := in.(*ssa.Store)
+			if !ok {
+				return
+			}
+			o, f, _, isF := FieldOf(st.Addr)
+			if !isF || o != "GroupIndex" || f != "Firstchan" {
+				return
+			}
+			if _, fresh := addrRoot(st.Addr).(*ssa.Alloc); !fresh {
+				return
+			}
+			// the row loop: the innermost counting loop after this store that stores into chanNumbers
+			var numPhi *ssa.Phi
+			Instrs(fn, func(x ssa.Instruction) {
+				s2, ok := x.(*ssa.Store)
+				if !ok {
+					return
+				}
+				ia, isIA := s2.Addr.(*ssa.IndexAddr)
+				if !isIA {
+					return
+				}
+				if _, ff, _, okf := FieldOf(ia.X); !okf || ff != "chanNumbers" {
+					return
+				}
+				if ph, isPhi := stripConv(s2.Val).(*ssa.Phi); isPhi && InstrReaches(st, s2) {
+					numPhi = ph
+				}
+			})
+			if numPhi == nil {
+				return // numbers are not phi-carried here (Abaco computes row + Firstchan)
+			}
+			r.Fn(FuncName(fn))
+			var entry ssa.Value
+			for i, e := range numPhi.Edges {
+				if !numPhi.Block().Dominates(numPhi.Block().Preds[i]) {
+					entry = e
+				}
+			}
+			same := entry != nil && stripConv(entry) == stripConv(st.Val)
+			if entry != nil && !same {
+				ka, oka := constInt(stripConv(entry))
+				kb, okb := constInt(stripConv(st.Val))
+				same = oka && okb && ka == kb
+			}
+			r.Check(same, "C19.R3", FuncName(fn)+": a group's first channel is the number of its first row", p.InstrPos(st), "the value stored as Firstchan is the value that enters the row numbering loop",
+				"the group is recorded with a first channel that is not the number its first row receives (it is taken before the column separation is applied, or from another variable): the groups reported to clients and written to channels.json list numbers that are not in use and miss numbers that are")
+		})
+		// --- row/column codes
+		n := 0
+		Instrs(fn, func(in ssa.Instruction) {
+			// values stored / appended into rowColCodes
+			var val ssa.Value
+			switch x := in.(type) {
+			case *ssa.Store:
+				ia, isIA := x.Addr.(*ssa.IndexAddr)
+				if !isIA {
+					return
+				}
+				if _, ff, _, okf := FieldOf(ia.X); okf && ff == "rowColCodes" {
+					val = x.Val
+				} else if al, isAl := ia.X.(*ssa.Alloc); isAl {
+					// the one-element array of an append(rowColCodes, v)
+					for _, ref := range *al.Referrers() {
+						if sl, isSl := ref.(*ssa.Slice); isSl {
+							for _, r2 := range *sl.Referrers() {
+								if c, isC := r2.(*ssa.Call); isC {
+									if b, isB := c.Call.Value.(*ssa.Builtin); isB && b.Name() == "append" {
+										if _, f2, _, ok2 := FieldOf(c.Call.Args[0]); ok2 && f2 == "rowColCodes" {
+											val = x.Val
+										}
+									}
+								}
+							}
+						}
+					}
+				}
+			}
+			if val == nil {
+				return
+			}
+			n++
+			r.Fn(FuncName(fn))
+			// direct or hoisted form
+			var call *ssa.Call
+			var rowV ssa.Value
+			if c, ok := val.(*ssa.Call); ok {
+				call = c
+				if len(c.Call.Args) >= 4 {
+					rowV = c.Call.Args[0]
+				}
+			} else if bo, ok := val.(*ssa.BinOp); ok && bo.Op == token.OR {
+				for _, pair := range [][2]ssa.Value{{bo.X, bo.Y}, {bo.Y, bo.X}} {
+					if c, ok := pair[0].(*ssa.Call); ok {
+						if k, isC := constInt(c.Call.Args[0]); isC && k == 0 {
+							call = c
+							rowV = stripConv(pair[1])
+						}
+					}
+				}
+			}
+			bad := ""
+			if call == nil || call.Call.StaticCallee() == nil || call.Call.StaticCallee().Name() != "rcCode" || len(call.Call.Args) < 4 {
+				bad = "the value is not the packer's result for this row and column"
+			} else {
+				// row must be the induction variable of the enclosing counting loop, rows its bound
+				ph, isPhi := stripConv(rowV).(*ssa.Phi)
+				okRows := false
+				if isPhi {
+					for _, ref := range *ph.Referrers() {
+						if cmp, ok := ref.(*ssa.BinOp); ok && cmp.Op == token.LSS && cmp.X == ssa.Value(ph) {
+							pc := NewPolyCtx(fn)
+							pc.G = true
+							if pc.Of(cmp.Y).Equal(pc.Of(call.Call.Args[2])) {
+								okRows = true
+							}
+						}
+					}
+				}
+				if !isPhi {
+					bad = "the row given to the packer is not the row loop's index"
+				} else if !okRows {
+					bad = "the row count given to the packer is not the bound of the loop over this group's rows"
+				}
+			}
+			r.Check(bad == "", "C19.R1", fmt.Sprintf("%s: row/column code #%d is packed from the row index and this group's own row count", FuncName(fn), n), p.InstrPos(in), "rcCode(row, col, bound of the row loop, cols)",
+				bad+": with groups of different sizes the decoded row count is not the group's, channels can carry a row number beyond the stated rows, and these values go into file headers")
+		})
+	}
 }
